@@ -20,11 +20,12 @@
 EXTENDS Naturals, Sequences, FiniteSets, TLC
 
 Kinds == {"int", "intList", "tokens", "tokenLists", "model", "modelList", "modelUnion", "anyType", "wildcardList",
-          "attributes", "primUnion", "compound", "enum", "nillableInt", "requiredInt", "attrInt"}
+          "attributes", "primUnion", "compound", "enum", "nillableInt", "requiredInt", "attrInt", "wildcardOne"}
 
 Shapes == {"absent", "empty", "ws", "int", "str", "enumStr", "ints", "twice", "nil", "nilText", "nilBad", "leaf", "leafTwice",
            "unknownChild", "mixed", "xsiInt", "xsiUnknown", "xsiUnbound", "xsiLeaf", "attrs", "parentAttr", "parentAttrBad",
-           "parentAttrs", "deep", "cdata", "comment", "otherNs", "compoundN", "sibling"}
+           "parentAttrs", "deep", "cdata", "comment", "otherNs", "compoundN", "sibling",
+           "known", "knownTwice", "knownThenX"}     \* content that binds to a class the context knows by its qualified name
 
 Positions == {"root", "nested", "repeated"}
 
@@ -40,7 +41,9 @@ Canonical(k, s) ==
     [] k = "modelList"    -> s \in {"absent", "empty", "leaf", "leafTwice"}
     [] k = "modelUnion"   -> s \in {"absent", "leaf"}
     [] k = "anyType"      -> s \in {"absent", "str", "xsiInt"}
-    [] k = "wildcardList" -> s \in {"absent", "str", "leaf", "leafTwice", "attrs", "deep", "otherNs", "twice", "unknownChild"}
+    [] k = "wildcardList" -> s \in {"absent", "str", "leaf", "leafTwice", "attrs", "deep", "otherNs", "twice", "unknownChild",
+                                     "known", "knownTwice", "knownThenX"}
+    [] k = "wildcardOne"  -> s \in {"absent", "str", "leaf", "attrs", "deep", "otherNs", "unknownChild", "known"}
     [] k = "attributes"   -> s \in {"absent", "parentAttrs", "parentAttr"}
     [] k = "primUnion"    -> s \in {"absent", "int", "str"}
     [] k = "compound"     -> s \in {"absent", "compoundN"}
@@ -49,7 +52,7 @@ Canonical(k, s) ==
 
 \* a shape that adds, next to canonical content `int`, something NO content model of the universe knows:
 \* an element <zz> beside x (sibling).  Kinds that absorb anything (wildcards) are exempt.
-AbsorbsUnknown(k) == k \in {"wildcardList"}
+AbsorbsUnknown(k) == k \in {"wildcardList", "wildcardOne"}
 MustFailStrict(k, s) == s = "sibling" /\ ~AbsorbsUnknown(k)
 
 TableSane == /\ \A k \in Kinds : \E s \in Shapes : Canonical(k, s)
